@@ -171,6 +171,86 @@ func materialise(root string, s dirState, scratch string) {
 	}
 }
 
+// applyEvent performs what another component of the server does to the index directory; it reports whether anything
+// changed. Sidecar rewrites go through the real writers (index.SetTombstone / UnsetTombstone) or, for renames, write the
+// .meta the way mergeMeta does (temp file + rename); the .zoekt file is never touched, so its size and mtime stay.
+func applyEvent(root string, ev event, scratch string) bool {
+	cur, _ := readFiles(root)
+	changed := false
+	switch ev.Kind {
+	case "reindex", "tomb":
+		for _, f := range cur {
+			if f.Compound && alive(f, ev.ID) {
+				must(index.SetTombstone(filepath.Join(root, baseName(f)), uint32(ev.ID)))
+				changed = true
+			}
+		}
+		if ev.Kind == "reindex" {
+			nf := file{Key: ev.ID*10 + ev.N, Mtime: 0, Repos: []repo{{ID: ev.ID, Name: ev.ID}}}
+			if find(cur, false, nf.Key) == nil {
+				// the new shard is as old as the newest file around (mtimes only matter in the trash)
+				for _, f := range cur {
+					if f.Mtime > nf.Mtime {
+						nf.Mtime = f.Mtime
+					}
+				}
+				writeFile(root, nf, scratch)
+				changed = true
+			}
+		}
+	case "untomb":
+		for _, f := range cur {
+			if !f.Compound {
+				continue
+			}
+			for _, rp := range f.Repos {
+				if rp.ID == ev.ID && rp.Tomb {
+					must(index.UnsetTombstone(filepath.Join(root, baseName(f)), uint32(ev.ID)))
+					changed = true
+					break
+				}
+			}
+		}
+	case "rename":
+		for _, f := range cur {
+			if !alive(f, ev.ID) {
+				continue
+			}
+			p := filepath.Join(root, baseName(f))
+			repos, _, err := index.ReadMetadataPath(p)
+			must(err)
+			for _, rp := range repos {
+				if int(rp.ID) == ev.ID {
+					rp.Name = fmt.Sprintf("repo%d", ev.NewName)
+				}
+			}
+			var b []byte
+			if f.Compound {
+				b, err = json.Marshal(repos)
+			} else {
+				b, err = json.Marshal(repos[0])
+			}
+			must(err)
+			must(os.WriteFile(p+".meta.tmp-verif", b, 0o644))
+			must(os.Rename(p+".meta.tmp-verif", p+".meta"))
+			changed = true
+			if ev.One {
+				break
+			}
+		}
+	case "rmshard":
+		for _, f := range cur {
+			if !f.Compound && alive(f, ev.ID) {
+				p := filepath.Join(root, baseName(f))
+				os.Remove(p)
+				os.Remove(p + ".meta")
+				changed = true
+			}
+		}
+	}
+	return changed
+}
+
 // ---------- reading a directory back (own code; only the shard metadata reader of the index package is reused) ----------
 
 func readFiles(dir string) (fs []file, anomalies []string) {
@@ -316,16 +396,23 @@ func oracle(pre dirState, assigned []int, now int64, post dirState) string {
 		}
 		return false
 	}
-	for _, id := range assigned {
-		names := map[int]bool{}
-		for _, f := range pre.Index {
-			for _, r := range f.Repos {
-				if r.ID == id && !r.Tomb {
-					names[r.Name] = true
+	// names under which each repository is alive in the index: a repository "disagrees on its name" if there are two
+	namesOf := map[int]map[int]bool{}
+	for _, f := range pre.Index {
+		for _, r := range f.Repos {
+			if !r.Tomb {
+				if namesOf[r.ID] == nil {
+					namesOf[r.ID] = map[int]bool{}
 				}
+				namesOf[r.ID][r.Name] = true
 			}
 		}
-		if len(names) > 1 {
+	}
+	// a loss is one of the two known classes only if the lost file itself held, alive, a repository that had to leave it
+	// (unassigned or inconsistently named; only a compound shard can), or shares its name with a trashed file
+	lossKey := ""
+	for _, id := range assigned {
+		if len(namesOf[id]) > 1 {
 			continue // its shards disagree on the repository name
 		}
 		for _, f := range pre.Index {
@@ -333,22 +420,29 @@ func oracle(pre dirState, assigned []int, now int64, post dirState) string {
 				continue
 			}
 			if g := find(post.Index, f.Compound, f.Key); g == nil || !alive(*g, id) {
-				if f.Compound {
-					return "assigned-lost-compound-shard-deleted"
-				}
-				for _, f2 := range pre.Index {
-					if alive(f2, id) && f2.Compound {
-						return "assigned-lost-compound-shard-deleted"
+				foreign := false
+				for _, r := range f.Repos {
+					if !r.Tomb && (!isAssigned[r.ID] || len(namesOf[r.ID]) > 1) {
+						foreign = true
 					}
 				}
-				for _, f2 := range pre.Index {
-					if alive(f2, id) && find(pre.Trash, f2.Compound, f2.Key) != nil {
-						return "assigned-lost-basename-collision"
-					}
+				k := "assigned-lost"
+				switch {
+				case foreign && f.Compound:
+					k = "assigned-lost-compound-shard-deleted"
+				case foreign:
+					k = "assigned-lost-shared-simple-shard"
+				case find(pre.Trash, f.Compound, f.Key) != nil:
+					k = "assigned-lost-basename-collision"
 				}
-				return "assigned-lost"
+				if lossKey == "" || k == "assigned-lost" {
+					lossKey = k
+				}
 			}
 		}
+	}
+	if lossKey != "" {
+		return lossKey
 	}
 	for _, id := range assigned {
 		if searchable(pre.Index, id) || !searchable(pre.Trash, id) || oldTrash(id) {
@@ -405,12 +499,30 @@ type scenario struct {
 	Merging  bool
 	Steps    []step
 	Collide  bool
+	Shape    string `json:",omitempty"` // "" = random layout and assigned lists; "lifecycle" = see genLifecycle
 }
 
 type step struct {
 	Assigned []int
 	Now      int64
-	Add      []file // shards "indexed" into the index directory before this cleanup
+	Add      []file  // shards "indexed" into the index directory before this cleanup
+	Events   []event // what other actors of the same server do to the directory before this cleanup
+}
+
+// event: something another component does between two cleanups, resolved against the directory as it is then.
+//
+//	reindex  the builder with shard merging on: tombstones ID in every compound shard listing it alive (it rewrites only
+//	         the .meta sidecar; the .zoekt file keeps its size and mtime) and writes a new simple shard for ID
+//	tomb / untomb   SetTombstone / UnsetTombstone of ID in the compound shards, by another writer of the sidecar
+//	rename   mergeMeta: the .meta of the shards of ID gets a new repository name (all of them, or only the first)
+//	rmshard  the indexer removed the simple shards of ID
+//	scan     listIndexed (the same process scans the directory, as the server loop does before every cleanup)
+type event struct {
+	Kind    string
+	ID      int
+	NewName int  `json:",omitempty"`
+	One     bool `json:",omitempty"`
+	N       int  `json:",omitempty"`
 }
 
 func mtimeNear(r *gen.Rand, now int64) int64 {
@@ -498,8 +610,106 @@ func genScenario(r *gen.Rand) scenario {
 				st.Add = append(st.Add, simple(id, id, 2+len(sc.Steps), now-5)) // the indexer wrote a new shard
 			}
 		}
+		// other actors between the cleanups (and a directory scan before the first one, as the server loop does)
+		if r.Chance(1, 3) {
+			st.Events = append(st.Events, event{Kind: "scan"})
+		}
+		if len(sc.Steps) > 0 {
+			for k := r.Intn(3); k > 0; k-- {
+				st.Events = append(st.Events, genEvent(r, r.Range(1, nids+1), 5+len(sc.Steps)))
+			}
+		}
 		sc.Steps = append(sc.Steps, st)
 		now += gen.Pick(r, []int64{0, 60, 3600, 23 * 3600, 25 * 3600, 49 * 3600})
+	}
+	return sc
+}
+
+func genEvent(r *gen.Rand, id, n int) event {
+	switch r.Intn(10) {
+	case 0, 1, 2:
+		return event{Kind: "reindex", ID: id, N: n}
+	case 3, 4:
+		return event{Kind: "tomb", ID: id}
+	case 5:
+		return event{Kind: "untomb", ID: id}
+	case 6, 7:
+		return event{Kind: "rename", ID: id, NewName: id + 10, One: r.Bool()}
+	case 8:
+		return event{Kind: "rmshard", ID: id}
+	}
+	return event{Kind: "scan"}
+}
+
+// genLifecycle: the life of a compound shard inside one server process. A compound shard of 2-3 alive repositories
+// (plus simple shards and trash around it); a first cleanup with *everything* assigned, so that the shard is scanned and
+// left alone; then another actor touches one member x of the shard (re-index, external tombstone, rename by metadata
+// merge, untombstone of a dead member …) without touching the .zoekt file; then cleanups in which x is dropped from the
+// assigned list (or not), the other members staying assigned.
+func genLifecycle(r *gen.Rand) scenario {
+	var sc scenario
+	sc.Shape = "lifecycle"
+	sc.Merging = r.Chance(2, 3)
+	nids := r.Range(3, 6)
+	now := int64(r.Range(100, 200)) * 86400
+	members := r.Range(2, 3)
+	c := file{Compound: true, Key: 1, Mtime: mtimeNear(r, now)}
+	for id := 1; id <= members; id++ {
+		c.Repos = append(c.Repos, repo{ID: id, Name: id, Date: int64(r.Range(0, 50))})
+	}
+	if r.Chance(1, 3) { // a member that is already dead in the shard
+		c.Repos[len(c.Repos)-1].Tomb = true
+	}
+	sc.Init.Index = append(sc.Init.Index, c)
+	for id := members + 1; id <= nids; id++ {
+		if r.Chance(1, 2) {
+			sc.Init.Index = append(sc.Init.Index, file{Key: id * 10, Mtime: mtimeNear(r, now), Repos: []repo{{ID: id, Name: id}}, Meta: r.Chance(1, 3)})
+		} else if r.Chance(1, 2) {
+			sc.Init.Trash = append(sc.Init.Trash, file{Key: id * 10, Mtime: mtimeNear(r, now), Repos: []repo{{ID: id, Name: id}}})
+		}
+	}
+	all := func() []int {
+		var l []int
+		for id := 1; id <= nids; id++ {
+			l = append(l, id)
+		}
+		gen.Shuffle(r, l)
+		return l
+	}
+	first := step{Assigned: all(), Now: now}
+	if r.Chance(1, 2) {
+		first.Events = append(first.Events, event{Kind: "scan"})
+	}
+	sc.Steps = append(sc.Steps, first)
+	x := r.Range(1, members)
+	for k := r.Range(1, 2); k > 0; k-- {
+		now += gen.Pick(r, []int64{60, 3600, 25 * 3600})
+		st := step{Now: now}
+		ev := gen.Pick(r, []event{
+			{Kind: "reindex", ID: x, N: 5 + len(sc.Steps)}, {Kind: "reindex", ID: x, N: 5 + len(sc.Steps)},
+			{Kind: "tomb", ID: x}, {Kind: "untomb", ID: members}, {Kind: "rename", ID: x, NewName: x + 10, One: r.Bool()},
+		})
+		if r.Chance(1, 3) {
+			st.Events = append(st.Events, event{Kind: "scan"})
+		}
+		st.Events = append(st.Events, ev)
+		switch r.Intn(5) {
+		case 0:
+			st.Assigned = all()
+		case 1:
+			for id := 1; id <= nids; id++ {
+				if r.Bool() {
+					st.Assigned = append(st.Assigned, id)
+				}
+			}
+		default: // x is no longer assigned, everything else is
+			for _, id := range all() {
+				if id != x {
+					st.Assigned = append(st.Assigned, id)
+				}
+			}
+		}
+		sc.Steps = append(sc.Steps, st)
 	}
 	return sc
 }
@@ -544,6 +754,55 @@ func main() {
 		for i, st := range sc.Steps {
 			for _, a := range st.Add {
 				writeFile(root, a, scratch)
+			}
+			rewrote := false
+			for j, ev := range st.Events {
+				if ev.Kind == "scan" {
+					// listIndexed in the same process: must report exactly the repositories alive in the index directory
+					cur, _ := readDir(root)
+					ans, ok := proc.Do("list " + root)
+					if !ok || !strings.HasPrefix(ans, "ids=") {
+						fmt.Fprintln(os.Stderr, "driver died", ans)
+						os.Exit(4)
+					}
+					got := strings.TrimPrefix(ans, "ids=")
+					want := map[int]bool{}
+					for _, f := range cur.Index {
+						for _, rp := range f.Repos {
+							if !rp.Tomb {
+								want[rp.ID] = true
+							}
+						}
+					}
+					var wl []int
+					for id := range want {
+						wl = append(wl, id)
+					}
+					sort.Ints(wl)
+					ws := make([]string, len(wl))
+					for k, id := range wl {
+						ws[k] = strconv.Itoa(id)
+					}
+					wantS := "-"
+					if len(ws) > 0 {
+						wantS = strings.Join(ws, ",")
+					}
+					c := gen.Case{In: "list index=" + showFiles(cur.Index), Impl: got, Class: "listIndexed", Detail: detail(i)}
+					if got != wantS {
+						c.Go, c.Key = fmt.Sprintf("%s: listIndexed before cleanup %d (event %d) returned %s, alive in the directory: %s", tag, i, j, got, wantS), "listindexed-not-the-alive-repositories"
+					}
+					w.Emit(c)
+					continue
+				}
+				if applyEvent(root, ev, scratch) {
+					rewrote = true
+					w.Count("event-"+ev.Kind, 1)
+				} else {
+					w.Count("event-"+ev.Kind+"-noop", 1)
+				}
+			}
+			if rewrote && i > 0 {
+				w.Count("cleanup-after-external-change-in-same-process", 1)
 			}
 			pre, anomalies := readDir(root)
 			if len(anomalies) > 0 {
@@ -654,9 +913,13 @@ func main() {
 		return
 	}
 	r := gen.NewRand(f.Seed)
-	n := f.N(200, 2500)
+	n := f.N(160, 2500)
 	for k := 0; k < n; k++ {
 		sc := genScenario(r)
+		if k%3 == 2 {
+			sc = genLifecycle(r)
+			w.Count("lifecycle-scenarios", 1)
+		}
 		runScenario(sc, fmt.Sprintf("scenario %d", k), k%10 == 0, func(i int) json.RawMessage {
 			return gen.Detail(map[string]any{"scenario": sc, "step": i})
 		})
